@@ -198,3 +198,42 @@ def instantiate(rng, items, star=(0, 4)):
 
 def kit_spec(c):
     return {"kind": "kit", "kit": c["kit"], "name": c["name"]}
+
+
+def instantiate_groups(rng, items, fixed=None, star=(0, 4)):
+    """like instantiate, but the letters of capture group g are taken from fixed[g] when given
+    (and must fit the atoms); returns (word, {group: text})"""
+    fixed = fixed or {}
+    out = []
+    groups = {}
+    stack = []
+    gno = 0
+    pos = {}
+    for it in items:
+        if it[0] == "open":
+            gno += 1
+            stack.append(gno)
+            groups[gno] = []
+            pos[gno] = 0
+            continue
+        if it[0] == "close":
+            stack.pop()
+            continue
+        if it[0] == "atom":
+            ch = None
+            for g in stack:
+                if g in fixed:
+                    ch = fixed[g][pos[g]]
+                    pos[g] += 1
+            if ch is None:
+                ch = class_letter(rng, it[1])
+            elif ch.upper() not in it[1] and not (ch.upper() in "ACGT" and "N" in it[1] and ch.upper() in it[1]):
+                if ch.upper() not in it[1]:
+                    raise ValueError("fixed letter %s does not fit %s" % (ch, it[1]))
+            word = ch
+        else:
+            word = "".join(class_letter(rng, it[1]) for _ in range(rng.randrange(star[0], star[1] + 1)))
+        out.append(word)
+        for g in stack:
+            groups[g].append(word)
+    return "".join(out), {g: "".join(v) for g, v in groups.items()}
